@@ -212,6 +212,10 @@ func c19(p *core.Prog, res *core.Result) {
 	res.Rule("G4", "histogram buckets are aligned half-open intervals covering min..max", 3)
 	res.Rule("G5", "count aggregation: one increment per row", 1)
 	res.Rule("G6", "each aggregation reads only its own channel", 5)
+	res.Rule("G7", "aggregation workers started in the loop over aggregations use a per-iteration copy", 4)
+	if af := p.Func("engine/core", "aggregate.Process"); af != nil {
+		loopVarCapture(p, res, af, "G7")
+	}
 
 	proc := p.Func("engine/core", "aggregate.Process")
 	comp := p.Func("engine/core", "StatementProcessor")
